@@ -28,7 +28,7 @@ def shards(tier, seed):
     subs = A.pick_subtypes(tier, seed, n_quick=3)
     groups = [["point", "multipoint"], ["line", "ring", "multiline"], ["polygon", "multipolygon"]]
     out = []
-    n = 40 if tier == "quick" else 600
+    n = 80 if tier == "quick" else 900
     for kinds in groups:
         for b in ("J", "B"):
             out.append({"name": f"{'+'.join(kinds)}-{b}", "build": b,
